@@ -175,6 +175,10 @@ type FaultWindow struct {
 	Fired bool
 	// FiredOp is the first operation that was made to fail.
 	FiredOp FaultOp
+	// FiredStack is the call stack (debug.Stack-like text, innermost first, starting at the
+	// caller of the store method) of the first operation that was made to fail: the code that
+	// received the injected error.
+	FiredStack string
 	// Failures is the number of operations that were made to fail (>1 only with Sticky).
 	Failures int
 	// WritesBefore is the number of successful Set/Delete operations before the first failure
@@ -228,6 +232,7 @@ type FaultStore struct {
 	armed    bool
 	plan     FaultPlan
 	win      FaultWindow
+	firedPCs []uintptr
 	txnSeq   int
 	commits  int
 	hook     func(FaultCommitInfo)
@@ -299,6 +304,7 @@ func (s *FaultStore) Arm(p FaultPlan) {
 	s.armed = true
 	s.plan = p
 	s.win = FaultWindow{}
+	s.firedPCs = nil
 	s.mu.Unlock()
 }
 
@@ -308,8 +314,29 @@ func (s *FaultStore) Disarm() FaultWindow {
 	defer s.mu.Unlock()
 	s.armed = false
 	w := s.win
+	if w.Fired {
+		w.FiredStack = faultRenderStack(s.firedPCs)
+	}
+	s.firedPCs = nil
 	s.win = FaultWindow{}
 	return w
+}
+
+func faultRenderStack(pcs []uintptr) string {
+	if len(pcs) == 0 {
+		return ""
+	}
+	var b strings.Builder
+	frames := runtime.CallersFrames(pcs)
+	for {
+		f, more := frames.Next()
+		// same shape as a debug.Stack() entry, so that hx.PanicSite-style parsers work
+		fmt.Fprintf(&b, "%s(...)\n\t%s:%d\n", f.Function, f.File, f.Line)
+		if !more {
+			break
+		}
+	}
+	return b.String()
 }
 
 // Window runs f inside a window and returns the window (convenience for Arm/f/Disarm; f's panic
@@ -348,17 +375,7 @@ func (s *FaultStore) OpenIteratorSites() []string {
 	defer s.mu.Unlock()
 	out := []string{}
 	for _, pcs := range s.iterSites {
-		var b strings.Builder
-		frames := runtime.CallersFrames(pcs)
-		for {
-			f, more := frames.Next()
-			// same shape as a debug.Stack() entry, so that hx.PanicSite-style parsers work
-			fmt.Fprintf(&b, "%s(...)\n\t%s:%d\n", f.Function, f.File, f.Line)
-			if !more {
-				break
-			}
-		}
-		out = append(out, b.String())
+		out = append(out, faultRenderStack(pcs))
 	}
 	sort.Strings(out)
 	return out
@@ -481,6 +498,8 @@ func (s *FaultStore) note(kind FaultOpKind, txn int, ro bool, key []byte) error 
 		if !w.Fired {
 			w.Fired = true
 			w.FiredOp = op
+			pcs := make([]uintptr, 48)
+			s.firedPCs = pcs[:runtime.Callers(3, pcs)]
 		}
 	} else {
 		if w.Fired {
